@@ -33,6 +33,45 @@ def run(ctx, rep):
     rep.section(m7, ctx, rep)
 
 
+def m0_stateful_iterator(f):
+    """The same scan written with one stateful iterator:
+           let mut it = path.iter().rev();   it.by_ref().find(|c| *c == "src")?;   let dir = it.next()?…
+       i.e. from the file upwards, consume up to and including the nearest `src`, the next component is the crate directory.
+       Accepted when: `it` is exactly `<path>.iter().rev()`; the only consumers of `it` are that `find` (whose miss leaves the
+       function: `?` / let-else) and, after it, one `next()` from which the result is built."""
+    its = [l for l in f.get('lets', []) if len(l.get('names', [])) == 1 and isinstance(l.get('v'), dict)]
+    for l in its:
+        v, chain = vt.unvar(l['v']), []
+        while isinstance(v, dict) and v.get('k') == 'call' and v.get('recv') is not None:
+            chain.append(v.get('f'))
+            v = vt.unvar(v['recv'])
+        if list(reversed(chain)) != ['iter', 'rev'] or not (isinstance(v, dict) and v.get('k') == 'atom' and v.get('param')):
+            continue
+        name = l['names'][0]
+
+        def on_it(x):
+            x = vt.unvar(x) if not (isinstance(x, dict) and x.get('k') == 'var' and x.get('name') == name) else x
+            while isinstance(x, dict) and x.get('k') == 'call' and x.get('f') == 'by_ref' and x.get('recv') is not None:
+                x = x['recv']
+            while isinstance(x, dict) and x.get('k') in ('ref', 'deref', 'paren'):
+                x = x.get('v')
+            return isinstance(x, dict) and ((x.get('k') == 'var' and x.get('name') == name) or vt.ckey(vt.unvar(x)) == vt.ckey(vt.unvar(l['v'])))
+        users = [c for c in f['calls'] if c.get('recv') is not None and on_it(c['recv']) and c.get('f') != 'by_ref']
+        finds = [c for c in users if c.get('f') == 'find']
+        nexts = [c for c in users if c.get('f') == 'next']
+        others = [c for c in users if c.get('f') not in ('find', 'next')]
+        if len(finds) != 1 or len(nexts) != 1 or others:
+            continue
+        clo = vt.unvar(finds[0]['args'][0]) if finds[0].get('args') else None
+        body = vt.unvar(clo.get('body')) if isinstance(clo, dict) and clo.get('k') == 'closure' else None
+        is_src = isinstance(body, dict) and body.get('k') == 'op' and body.get('op') == '==' and any(isinstance(vt.strip(a), dict) and vt.strip(a).get('k') == 'lit' and vt.strip(a).get('v') == 'src' for a in body.get('args', []))
+        leaves_on_miss = finds[0].get('parent') == 'try'
+        result_from_next = any(x.get('k') == 'call' and x.get('f') == 'next' and x.get('recv') is not None and on_it(x['recv']) for x in vt.walk(f.get('tail') or {}))
+        if is_src and leaves_on_miss and finds[0].get('line', 0) < nexts[0].get('line', 0) and result_from_next and not [c for c in (finds + nexts) if any(fr.get('k') in ('for', 'while', 'loop', 'if', 'arm') for fr in c.get('guard', []))]:
+            return True
+    return False
+
+
 def m0(ctx, rep):
     f = ctx.fn('CrateName::find_crate_name', file='language/mod.rs')
     site = {'file': f['file'], 'line': f['line']}
@@ -52,6 +91,8 @@ def m0(ctx, rep):
     ok = order[:4] == ['iter', 'rev', 'skip_while', 'nth'] and "'src'" in txt.replace('"', "'")
     nth = [c for c in vt.calls_in(f['tail']) if c.get('f') == 'nth']
     ok = ok and bool(nth) and vt.show(vt.strip(nth[0]['args'][0])) == "'1'"
+    if not ok:
+        ok = m0_stateful_iterator(f)
     rep.check(ok, 'M0', 'crate-name:nearest-src', 'path scanned from the file upwards to the nearest `src`, crate = the component above it', f"find_crate_name derives the crate from `{'.'.join(order)}` — it must scan the path components from the file upwards (rev), skip to the nearest `src` and take the component above it; scanning from the root picks an ancestor directory named `src` (e.g. ~/src/<workspace>/..) and merges every crate into one wrongly named file", site)
     rep.check("replace('-', '_')" in txt.replace('"', "'"), 'M0', 'crate-name:dashes', 'dashes become underscores', 'find_crate_name no longer maps `-` to `_`', site)
 
